@@ -34,32 +34,102 @@ func (a Atom) String() string {
 	return n
 }
 
-func valueName(v ssa.Value) string {
+func valueName(v ssa.Value) string { return valueNameD(v, 0) }
+
+// valueNameD renders a value structurally (no SSA register numbers), so that obligation keys
+// survive unrelated edits of the same function.
+func valueNameD(v ssa.Value, d int) string {
 	if v == nil {
 		return "?"
+	}
+	if d > 4 {
+		return "_"
 	}
 	switch x := v.(type) {
 	case *ssa.Parameter:
 		return x.Name()
 	case *ssa.Const:
+		if x.Value == nil {
+			return "nil"
+		}
 		return x.Value.ExactString()
 	case *ssa.Global:
 		return x.Name()
 	case *ssa.Phi:
 		if x.Comment != "" {
-			return x.Comment + "~" + x.Name()
+			return x.Comment
 		}
+		return "phi"
 	case *ssa.Call:
+		var args []string
+		for _, a := range x.Common().Args {
+			args = append(args, valueNameD(a, d+2))
+		}
+		name := "call"
 		if f := x.Common().StaticCallee(); f != nil {
-			return f.Name() + "()~" + x.Name()
+			name = f.Name()
+		} else if x.Common().IsInvoke() {
+			name = x.Common().Method.Name()
+			args = append([]string{valueNameD(x.Common().Value, d+2)}, args...)
+		} else if b, ok := x.Common().Value.(*ssa.Builtin); ok {
+			name = b.Name()
 		}
-		if x.Common().IsInvoke() {
-			return x.Common().Method.Name() + "()~" + x.Name()
-		}
+		return name + "(" + strings.Join(args, ",") + ")"
 	case *ssa.Extract:
-		return valueName(x.Tuple) + "#" + fmt.Sprint(x.Index)
+		return valueNameD(x.Tuple, d) + "#" + fmt.Sprint(x.Index)
+	case *ssa.BinOp:
+		return "(" + valueNameD(x.X, d+1) + x.Op.String() + valueNameD(x.Y, d+1) + ")"
+	case *ssa.UnOp:
+		if x.Op.String() == "*" {
+			return valueNameD(x.X, d)
+		}
+		return x.Op.String() + valueNameD(x.X, d+1)
+	case *ssa.FieldAddr:
+		name := "?"
+		if f := fieldOf(x); f != nil {
+			name = f.Name()
+		}
+		return valueNameD(x.X, d) + "." + name
+	case *ssa.Field:
+		name := "?"
+		if f := fieldOf(x); f != nil {
+			name = f.Name()
+		}
+		return valueNameD(x.X, d) + "." + name
+	case *ssa.IndexAddr:
+		return valueNameD(x.X, d+1) + "[" + valueNameD(x.Index, d+1) + "]"
+	case *ssa.Index:
+		return valueNameD(x.X, d+1) + "[" + valueNameD(x.Index, d+1) + "]"
+	case *ssa.Slice:
+		lo, hi := "", ""
+		if x.Low != nil {
+			lo = valueNameD(x.Low, d+1)
+		}
+		if x.High != nil {
+			hi = valueNameD(x.High, d+1)
+		}
+		return valueNameD(x.X, d+1) + "[" + lo + ":" + hi + "]"
+	case *ssa.Convert:
+		return valueNameD(x.X, d)
+	case *ssa.ChangeType:
+		return valueNameD(x.X, d)
+	case *ssa.Alloc:
+		if x.Comment != "" {
+			return x.Comment
+		}
+		return "local"
+	case *ssa.MakeSlice:
+		return "make(" + valueNameD(x.Len, d+1) + ")"
+	case *ssa.Lookup:
+		return valueNameD(x.X, d+1) + "[" + valueNameD(x.Index, d+1) + "]"
+	case *ssa.Next:
+		return "next"
+	case *ssa.TypeAssert:
+		return valueNameD(x.X, d+1) + ".(T)"
+	case *ssa.MakeInterface:
+		return valueNameD(x.X, d)
 	}
-	return v.Name()
+	return "v"
 }
 
 // Lin is a linear form sum(coef[a]*a) + K.
@@ -301,6 +371,9 @@ func floorDiv(a, b int64) int64 {
 
 // typeRange returns the value range of a basic integer type.
 func typeRange(t types.Type) (lo, hi int64, ok bool) {
+	if t == nil {
+		return 0, 0, false
+	}
 	b, isB := t.Underlying().(*types.Basic)
 	if !isB {
 		return 0, 0, false
